@@ -55,6 +55,7 @@ TARGETS = [
     Fn("ArbitrationId", "j1939_priority", "getter", [], ARB_SELF, [], INT, "gen_j1939_priority"),
     Fn("ArbitrationId", "j1939_pdu_format", "getter", [], ARB_SELF, [], INT, "gen_j1939_pdu_format"),
     Fn("ArbitrationId", "pgn", "getter", [], ARB_SELF, [], INT, "gen_pgn"),
+    Fn("ArbitrationId", "j1939_destination", "getter", [], ARB_SELF, [], OPTINT, "gen_j1939_destination"),
     Fn("ArbitrationId", "pgn", "setter", [("value", INT)], ARB_SELF, ["id", "extended"], None, "gen_set_pgn"),
     Fn("ArbitrationId", "j1939_source", "setter", [("value", INT)], ARB_SELF, ["id", "extended"], None, "gen_set_source"),
     Fn("ArbitrationId", "j1939_priority", "setter", [("value", INT)], ARB_SELF, ["id", "extended"], None, "gen_set_priority"),
@@ -162,6 +163,20 @@ def cond(e, env, cx):
             bad(e, "property access after a short-circuit operator")
         op = "&&" if isinstance(e.op, ast.And) else "||"
         return parts[0][0], "(" + (" %s " % op).join(t for _, t in parts) + ")"
+    if isinstance(e, ast.Compare) and len(e.ops) > 1:
+        # a < b < c is (a < b) and (b < c); the middle operands are evaluated once in Python, so only effect-free
+        # names and constants are accepted there
+        operands = [e.left] + list(e.comparators)
+        if not all(isinstance(m, (ast.Name, ast.Constant)) for m in operands[1:-1]):
+            bad(e, "chained comparison over a compound middle operand")
+        links = []
+        for i, op_i in enumerate(e.ops):
+            link = ast.Compare(left=operands[i], ops=[op_i], comparators=[operands[i + 1]])
+            ast.copy_location(link, e)
+            links.append(link)
+        both = ast.BoolOp(op=ast.And(), values=links)
+        ast.copy_location(both, e)
+        return cond(both, env, cx)
     if isinstance(e, ast.Compare) and len(e.ops) == 1:
         op, a, b = e.ops[0], e.left, e.comparators[0]
         if isinstance(op, (ast.Is, ast.IsNot)):
@@ -263,6 +278,8 @@ def stmts(body, env, cx, k_end, k_break=None):
         if key in env and env[key][1] != ty and not (env[key][1] == BOOL and ty == BOOL):
             bad(s, "assignment changes the type")
         v = cx.fresh(key)
+        if ty == "none":
+            t = "(@None Z)"                                  # a bare None has no type of its own in Gallina
         env2 = dict(env)
         env2[key] = (v, ty)
         return with_binds(b, "let %s := %s in\n  %s" % (v, t, nxt(env2)))
@@ -318,6 +335,10 @@ def stmts(body, env, cx, k_end, k_break=None):
         if isinstance(s.value, ast.Call) and isinstance(s.value.func, ast.Name) and s.value.func.id == "cls":
             return ctor_call(s.value, env, cx)
         b, t, ty = expr(s.value, env, cx)
+        if cx.fn.ret == OPTINT and ty == INT:
+            t, ty = "(Some %s)" % t, OPTINT                   # an int where an optional int is expected
+        elif cx.fn.ret == OPTINT and ty == "none":
+            t, ty = "(@None Z)", OPTINT
         if cx.fn.ret is None or ty != cx.fn.ret:
             bad(s, "return type")
         return with_binds(b, result_term(cx, env, t))
@@ -326,7 +347,7 @@ def stmts(body, env, cx, k_end, k_break=None):
             bad(s, "break outside loop")
         return k_break(env)
     if isinstance(s, ast.For):
-        if s.orelse or not isinstance(s.target, ast.Name) or not isinstance(s.iter, ast.List) \
+        if s.orelse or not isinstance(s.target, ast.Name) or not isinstance(s.iter, (ast.List, ast.Tuple)) \
                 or not all(isinstance(x, ast.Constant) and isinstance(x.value, int) for x in s.iter.elts):
             bad(s, "for loop (only literal integer lists are unrolled)")
         items = [x.value for x in s.iter.elts]
